@@ -23,5 +23,5 @@ INIT MCInit
 NEXT MCNext
 CHECK_DEADLOCK FALSE
 VIEW View
-INVARIANTS C10_OneMasterPerTerm
+INVARIANTS C10_OneMasterPerTerm Cover
 PROPERTIES C10_Acts
